@@ -199,12 +199,12 @@ class _NumericOperationsImpl(OperationsBlock):
     def isinf(self, x):
         if isinstance(x.dtype, (dtypes.Floating, dtypes.NullableFloating)):
             return unary_op(x, opx.isinf)
-        return ndx.full(nda.shape(x), fill_value=False)
+        return _constant_predicate(x, False)
 
     @validate_core
     def isnan(self, x):
         if not isinstance(x.dtype, (dtypes.Floating, dtypes.NullableFloating)):
-            return ndx.full_like(x, False, dtype=dtypes.bool)
+            return _constant_predicate(x, False)
         else:
             return unary_op(x, opx.isnan)
 
@@ -985,6 +985,17 @@ class NumericOperationsImpl(CoreOperationsImpl, _NumericOperationsImpl): ...
 
 
 class NullableNumericOperationsImpl(NullableOperationsImpl, _NumericOperationsImpl): ...
+
+
+def _constant_predicate(x: Array, value: bool) -> ndx.Array:
+    """Predicate with the same answer for every element of ``x``; nulls stay null."""
+    if isinstance(x.dtype, dtypes.NullableCore):
+        return ndx.Array._from_fields(
+            dtypes.nbool,
+            values=ndx.full_like(x.values, value, dtype=dtypes.bool),
+            null=x.null.copy(),
+        )
+    return ndx.full_like(x, value, dtype=dtypes.bool)
 
 
 def _via_i64_f64(
